@@ -194,6 +194,10 @@ pub struct Stats {
     pub sozu_read_eagain: u64,
     pub sozu_read_full: u64,
     pub faults: BTreeMap<String, u64>,
+    #[serde(default)]
+    pub spin_breaks: u64,
+    #[serde(default)]
+    pub hooked_writes_eagain_real: u64,
 }
 impl Stats {
     pub fn fault(&mut self, k: &str) {
@@ -224,6 +228,7 @@ impl Stats {
         self.sozu_reads += o.sozu_reads;
         self.sozu_read_eagain += o.sozu_read_eagain;
         self.sozu_read_full += o.sozu_read_full;
+        self.spin_breaks += o.spin_breaks;
         for (k, v) in &o.faults {
             *self.faults.entry(k.clone()).or_insert(0) += v;
         }
@@ -313,6 +318,9 @@ pub struct World {
     pending_burst: Option<u32>,
     /// (simulated process, virtual time) of every accept of a simulated connection
     pub accept_log: Vec<(usize, u64)>,
+    /// consecutive would-block writes by sozu since its last epoll_wait (busy-loop damping)
+    eagain_streak: u32,
+    pub spin_breaks: u64,
 }
 
 impl World {
@@ -356,6 +364,8 @@ impl World {
             procs: vec![ProcSlot { name: "p0".into(), state: P_RUNNING, ..Default::default() }],
             pending_burst: None,
             accept_log: Vec::new(),
+            eagain_streak: 0,
+            spin_breaks: 0,
         })
     }
 
@@ -566,6 +576,7 @@ impl World {
         let deadline = if timeout_ms < 0 { u64::MAX } else { self.now + timeout_ms as u64 * MS };
         while self.procs.len() <= me { self.procs.push(ProcSlot::default()); }
         let p = &mut self.procs[me];
+        self.eagain_streak = 0;
         p.state = P_PARKED; p.epfd = epfd; p.events = events as usize; p.maxevents = maxevents; p.deadline = deadline; p.delivered = None;
         // a process just ran: any actor may be able to progress again
         for a in self.astate.iter_mut() { if !a.done && !(a.hard_sleep && a.wake_at.is_some()) { a.runnable = true; } }
@@ -919,7 +930,30 @@ impl World {
         if is_write {
             self.stats.sozu_writes += 1;
             if r >= 0 && (r as usize) < req { self.stats.sozu_partial_writes += 1; }
-            if r == -(libc::EAGAIN as i64) { self.stats.sozu_write_eagain += 1; }
+            if r == -(libc::EAGAIN as i64) {
+                self.stats.sozu_write_eagain += 1;
+                // sozu retries a blocked write in a tight loop (up to its MAX_LOOP_ITERATIONS budget) when
+                // rustls still holds ciphertext. A peer running concurrently would drain meanwhile: after 16
+                // consecutive would-block writes let the peers run, which is a legal schedule and keeps
+                // such runs from costing minutes of wall time.
+                self.eagain_streak += 1;
+                if self.eagain_streak >= 16 && self.hook_depth == 0 {
+                    self.eagain_streak = 0;
+                    self.spin_breaks += 1;
+                    self.stats.spin_breaks += 1;
+                    self.hook_depth += 1;
+                    for a in self.astate.iter_mut() { if !a.done && !(a.hard_sleep && a.wake_at.is_some()) { a.runnable = true; } }
+                    // virtual time passes while sozu spins: a pausing peer resumes
+                    if let Some(t) = self.next_wake() {
+                        if t > self.now && t < self.now + 50 * MS { self.now = t; self.stats.clock_jumps += 1; }
+                        self.fire_due();
+                    }
+                    self.run_actors(8);
+                    self.hook_depth -= 1;
+                }
+            } else {
+                self.eagain_streak = 0;
+            }
             self.tr(0xD0, r as u64);
         } else {
             self.stats.sozu_reads += 1;
